@@ -282,7 +282,12 @@ def s4(ck, an):
     ck.floor("Observer subclasses", len(subs), 6)
     fo = an.fa("Observer.reset")
     inits = [c for c in fo.calls_named("__init__")]
-    ok = len(inits) == 1 and ast.unparse(inits[0]) == "self.__init__(*self._init_args, **self._init_kwargs)"
+    ok = False
+    if len(inits) == 1:
+        c_ = inits[0]
+        stars = [fo.sym.canon(a.value) for a in c_.args if isinstance(a, ast.Starred)]
+        kws = [fo.sym.canon(k.value) for k in c_.keywords if k.arg is None]
+        ok = fo.sym.canon(c_.func) == "self.__init__" and len(c_.args) == 1 and stars == ["self._init_args"] and len(c_.keywords) == 1 and kws == ["self._init_kwargs"]      # value ids: the stored arguments may pass through locals
     ck.check(ok, "RESET", "S4.observer-reset-reruns-init", fo.f.short, fo.f.loc, "Observer.reset re-runs __init__ with the stored constructor arguments", "Observer.reset does not re-run __init__(*_init_args, **_init_kwargs)",
              construct="self.__init__(*self._init_args, **self._init_kwargs)")
     for a in ("last_update", "_nr_callbacks"):
